@@ -213,6 +213,11 @@ fn main() {
             nodes(&mut cx, p, &mut rng, *mode);
         }
         let lens: Vec<usize> = if k >= first_directed { vec![35, 9, 3] } else if !quick || k % 10 == 0 { all_lens.clone() } else { (0..4).map(|i| quick_lens[(k + i * 5) % quick_lens.len()]).collect() };
+        // a few programs also over slices far longer than anything a renderer hands in (thousands of samples)
+        let mut lens = lens;
+        if k % 40 == 7 && p.ssa.len() <= 40 {
+            lens.push([1025usize, 4099, 2049][(k / 40) % 3]);
+        }
         e2e(&mut cx, p, &mut rng, *mode, &lens);
     }
     let n = cx.id;
